@@ -341,7 +341,7 @@ pub fn run(ctx: &mut Ctx) {
         if i % 4 == 1 {
             // ephemeral scalars with zero limbs (2^64, x*2^128 + y, ...) and very small ones
             ctx.class("sparse_ephemeral_scalars");
-            ra = sparse_scalar(&mut p, 1 + (i / 4) % 14);
+            ra = if i % 8 == 5 { crate::sm2x::run_scalar(&mut p, &(&pr.n - 1u32)) } else { sparse_scalar(&mut p, 1 + (i / 4) % 14) };
             rb = if i % 8 == 1 { BigUint::from(1 + i % 3) } else { sparse_scalar(&mut p, 1 + (i / 8 + 5) % 14) };
         }
         let t = tampers[((i / 2) % 8) as usize];
